@@ -918,7 +918,8 @@ def natural_sweep(ctx, path, max_records, max_modules):
 # (D) prepare_output_directory
 # --------------------------------------------------------------------------------------------
 
-D_ELEMENTS = ["log", "json", "region", "file", "dir", "html", "hidden", "nearmiss", "inputlike", "logprefix", "logsdir"]
+D_ELEMENTS = ["log", "json", "region", "file", "dir", "html", "hidden", "nearmiss", "inputlike", "logprefix", "logsdir",
+              "emptydir", "loglink"]
 D_DESIGN_ELEMENTS = ["log", "json", "region", "file", "dir", "html"]
 D_INPUT = ["absent", "dir", "file"]
 # reuse-sibling: the reused results lie in a directory whose path merely starts with the output directory's path
@@ -943,6 +944,8 @@ D_FILES = {
     "inputlike": {"raw_input/reads.gbk": b"not antiSMASH's input copy"},     # materialised from D_POOL_DIRS["raw_input"]
     "logprefix": {"run": b"a file whose name is the beginning of the log file's name"},
     "logsdir": {"logs/run.log": b"INFO log\n", "logs/other.txt": b"unrelated"},   # materialised from D_POOL_DIRS["logs"]
+    "emptydir": {"placeholder/": b""},     # an empty directory (another tool's placeholder, a mount point): materialised from D_POOL_DIRS
+    "loglink": {"latest.log": b"-> logs/run.log"},      # a symbolic link to the log file outside the directory (materialised as a link)
     "nearmiss": {"in.region0001.gbk": b"four digits", "in.region01.gbk": b"two digits",
                  "in.region001.gbk.bak": b"backup"},
 }
@@ -979,6 +982,7 @@ D_POOL_DIRS = {
     "raw_input": {"reads.gbk": b"not antiSMASH's input copy"},
     "logs": {"run.log": b"INFO log\n", "other.txt": b"unrelated"},
     "previous": {"prev.json": b'{"version": "nested"}', "prev.region001.gbk": b"the nested run's region"},
+    "placeholder": {},
 }
 D_STATIC = {"src/in.gbk": b"LOCUS input\n//\n", "elsewhere/prev.json": b'{"version": "elsewhere"}',
             "elsewhere/prev.region001.gbk": b"another run's region", "logs/run.log": b"outside log\n",
@@ -997,6 +1001,7 @@ def _sandbox_reset(sandbox):
     for rel, content in D_STATIC.items():
         _put(os.path.join(sandbox, rel), content)
     for name, files in D_POOL_DIRS.items():
+        os.makedirs(os.path.join(sandbox, "pool", name), exist_ok=True)
         for rel, content in files.items():
             _put(os.path.join(sandbox, "pool", name, rel), content)
     _SANDBOX_STATE[sandbox] = _snapshot(sandbox)
@@ -1065,6 +1070,12 @@ def _run_dir_case(ctx, sandbox, case, main_module, config_module, neutral, outdi
                 continue
             if element == "logsdir":
                 os.rename(os.path.join(sandbox, "pool", "logs"), os.path.join(outdir, "logs"))
+                continue
+            if element == "emptydir":
+                os.rename(os.path.join(sandbox, "pool", "placeholder"), os.path.join(outdir, "placeholder"))
+                continue
+            if element == "loglink":
+                os.symlink(os.path.join(sandbox, "logs", "run.log"), os.path.join(outdir, "latest.log"))
                 continue
             for rel, content in D_FILES[element].items():
                 _put(os.path.join(outdir, rel), content, parents=False)
@@ -1208,7 +1219,7 @@ def dir_cases(elements_universe, full):
                             continue
                         if not full and mode == "reuse-nested" and (len(subset) > 2 or logcfg != "unset"):
                             continue
-                        if not full and logcfg == "outside" and "log" not in subset:
+                        if not full and logcfg == "outside" and "log" not in subset and "loglink" not in subset:
                             continue
                         if not full and mode == "reuse-sibling" and (len(subset) > 2 or logcfg != "unset"):
                             continue
